@@ -51,3 +51,20 @@ Definition outside (full : bool) : list string :=
 
 Lemma shipped_in_class : outside true = [] /\ outside false = [].
 Proof. split; vm_compute; reflexivity. Qed.
+
+(* the any-order class (positional fields self-delimiting): which shipped layouts are outside it *)
+Definition in_anyorder (full : bool) (s : string * option (N * N) * list field) : bool :=
+  match s with
+  | (_, _, fs) => match canon_anyorder fs (sample full LEmpty EDefault (TStruct fs)) with Some _ => true | None => false end
+  end.
+Definition outside_anyorder (full : bool) : list string :=
+  map (fun s => fst (fst s)) (filter (fun s => negb (in_anyorder full s)) structs).
+
+Definition no_tagged (s : string * option (N * N) * list field) : bool :=
+  match s with (_, _, fs) => forallb untagged_field fs end.
+
+(* every shipped layout that HAS tagged fields is inside the any-order class, all optionals present / absent *)
+Lemma shipped_anyorder :
+  forallb (fun s => in_anyorder true s || no_tagged s) structs = true /\
+  forallb (fun s => in_anyorder false s || no_tagged s) structs = true.
+Proof. split; vm_compute; reflexivity. Qed.
